@@ -1,6 +1,6 @@
 (* C16 — all lemmas, and the concrete states used as non-vacuity examples. *)
 From Yv Require Export Common.Base C16.Model C16.Spec C16.ProofsBase C16.ProofsAbs C16.ProofsProps
-  C16.ProofsFrame C16.ProofsScript C16.Run C16.ProofsOracle C16.ProofsPanic C16.ProofsEnv.
+  C16.ProofsFrame C16.ProofsScope C16.ProofsScript C16.Run C16.ProofsOracle C16.ProofsPanic C16.ProofsEnv.
 
 Definition A : name := [97%N].
 
@@ -101,6 +101,30 @@ Lemma ex_global_persist_runs :
                  (compile (CCall [(A, Scalar [55%N])] [CAssign [(A, FIVE)]] [])) ex_pre_state
                = (t, Finished, s').
 Proof. vm_compute. eauto. Qed.
+
+Lemma ex_scope_runs :
+  (exists t s', irun vset step (m_obs_vars [A; B]) (m_obs_env [A; B])
+                 (compile (CCall [(A, Scalar [55%N])] [CReadonly A (Some FIVE)] [])) ex_pre_state
+               = (t, Finished, s')) /\
+  (exists t s', irun vset step (m_obs_vars [A; B]) (m_obs_env [A; B])
+                 (compile (CCall [(A, Scalar [55%N])] [CExport A None] [])) ex_pre_state
+               = (t, Finished, s')) /\
+  (exists t s', irun vset step (m_obs_vars [A; B]) (m_obs_env [A; B])
+                 (compile (CCall [(A, Scalar [55%N])] [CTypeset [] false true true A (Some FIVE)] [])) ex_pre_state
+               = (t, Finished, s')).
+Proof. repeat split; vm_compute; eauto. Qed.
+
+Lemma ex_scope_runs2 :
+  (exists t s', irun vset step (m_obs_vars [A; B]) (m_obs_env [A; B])
+                 (compile (CCall [(A, Scalar [55%N])] [CTypeset [] true true true A (Some FIVE)] [])) ex_pre_state
+               = (t, Finished, s')) /\
+  (exists t s', irun vset step (m_obs_vars [A; B]) (m_obs_env [A; B])
+                 (compile (CCall [(A, Scalar [55%N])] [CUnset A] [])) ex_pre_state
+               = (t, Finished, s')) /\
+  (exists t s', irun vset step (m_obs_vars [A; B]) (m_obs_env [A; B])
+                 (compile (CCall [(A, Scalar [55%N])] [CFor A [[49%N]] []] [])) ex_pre_state
+               = (t, Finished, s')).
+Proof. repeat split; vm_compute; eauto. Qed.
 
 Lemma ex_state_get : exists v, get ex_state A = Some v /\ vval v = Some (Scalar [51%N]).
 Proof. vm_compute. eexists; split; reflexivity. Qed.
